@@ -53,7 +53,7 @@ type ccmd struct {
 	Profile string       `json:"profile,omitempty"`
 	Init    []sopx.KV    `json:"init,omitempty"`
 	Txns    []plannedTxn `json:"txns,omitempty"`
-	G       int          `json:"g,omitempty"` // goroutines the transactions are dealt to
+	G       int          `json:"g,omitempty"`     // goroutines the transactions are dealt to
 	Plan    *plannedTxn  `json:"plan,omitempty"`  // tbegin
 	ID      string       `json:"id,omitempty"`    // tstep, tfinish
 	Step    *plannedStep `json:"step,omitempty"`  // tstep
